@@ -297,6 +297,14 @@ def _push_block(ctx, lib, fn, item, cap, nel):
     ok2 = has(prv, i, OneOfSub(i))
     ctx.check(len(rs) == 1 and m(i, rs[0]["args"][1]) and bool(ok1) and bool(ok2), "H-PUSH", b, "chain-new-slots", b.span,
               "every new slot i is reset and linked next=i+1, prev=i-1")
+    # … for EVERY new slot: no path through the loop body skips the reset or either link store
+    swp = switches_on(root, lambda d: d[0] == "discr" and d[1][0] == "call" and d[1][3] == (b.path, pulls[0]["bb"]))
+    if len(swp) == 1 and rs and ok1 and ok2:
+        some_p, none_p = opt_arms(swp[0][1])
+        for nm, bb in (("reset", rs[0]["bb"]), ("next", ok1[0]), ("prev", ok2[0])):
+            ctx.check(pulls[0]["bb"] not in (b.reach(some_p, avoid_blocks=[bb]) - {some_p} if some_p != bb else set()), "H-PUSH", b,
+                      "every-new-slot:" + nm, b.loc(bb), "every slot of the new block must be %s unconditionally (a recycled ring slot still holds the flags "
+                      "of the block that was dropped)" % ("reset" if nm == "reset" else "linked (" + nm + ")"))
     # growth happens before the reset loop (offset() asserts the active range)
     ctx.check(b.dominates(wbb, pulls[0]["bb"]), "H-PUSH", b, "grow-before-reset", b.span, "num_blocks is incremented before the new slots are touched")
     head = P(F(Par(1), "head_idx"))
@@ -339,6 +347,9 @@ def _use_index(ctx, lib, fn, item):
     p = C(LI + "::prev", item(idx))
     ok1 = any(m(item(p), x) and m(n, v) for x, v, bb in nxt)
     ok2 = any(m(item(n), x) and m(p, v) for x, v, bb in prv)
+    rets_ = b.return_blocks()
+    unc = all(all(b.dominates(bb_, r_) for r_ in rets_) for _, _, bb_ in nxt + prv) and all(all(b.dominates(s_["bb"], r_) for r_ in rets_) for s_ in marks)
+    ctx.check(unc, "H-USE", b, "unconditional", b.span, "marking and unlinking happen on every call of use_index (no conditional skip)")
     ctx.check(ok1 and ok2 and len(nxt) == 1 and len(prv) == 1, "H-USE", b, "unlinks", b.span,
               "use_index unlinks the slot: prev.next = next, next.prev = prev; stores next_mut:%s prev_mut:%s"
               % ([(show(x), show(v)) for x, v, _ in nxt], [(show(x), show(v)) for x, v, _ in prv]))
